@@ -5,6 +5,7 @@ import Driver.ThrStream
 import Driver.LogStream
 import Driver.DetStream
 import Driver.WinStream
+import Driver.FsStream
 open Driver
 
 def main (args : List String) : IO UInt32 := do
@@ -21,4 +22,6 @@ def main (args : List String) : IO UInt32 := do
   | ["mon", "detector"] => runMon DetStream.monInit DetStream.monStep DetStream.monFinish; return 0
   | ["model", "window"] => runModel WinStream.init WinStream.step; return 0
   | ["mon", "window"] => runMon WinStream.init WinStream.monStep WinStream.monFinish; return 0
+  | ["model", "fs"] => runModel FsStream.init FsStream.step; return 0
+  | ["mon", "fs"] => runMon FsStream.monInit FsStream.monStep FsStream.monFinish; return 0
   | _ => IO.eprintln "usage: driver model|mon <stream>"; return 2
